@@ -405,6 +405,22 @@ def _kinds():
     add("dict:wide", lambda r: {"key%d" % i: (i if i % 2 else "v%d" % i) for i in range(25)})
     add("set:wide_strings", lambda r: {"m%d" % i for i in range(12)} | {None})
     add("list:wide_objects", lambda r: [make_leaf(r) if i % 4 == 0 else "o%d" % i for i in range(12)])
+    # rectangular all-numeric tables: every row keeps its own container kind
+    add("table:list_then_tuple", lambda r: [[1, 2], (3, int(r.integers(4, 99)))])
+    add("table:tuple_then_list", lambda r: [(1, 2), [3, int(r.integers(4, 99))], (5, 6)])
+    add("table:tuple_of_mixed_rows", lambda r: ([1.5, 2.5], (3.5, float(r.integers(4, 99))), [5.5, 6.5]))
+    add("table:empty_rows", lambda r: [[], ()])
+    add("table:empty_rows_tuple_first", lambda r: ((), [], ()))
+    add("table:npscalar_rows", lambda r: [(np.int16(1), np.float32(2.5)), [3, 4.5], (np.uint8(7), np.float64(0.25))])
+    add("table:one_row_tuple_in_list", lambda r: [(1, 2, 3, int(r.integers(4, 99)))])
+    add("table:one_row_list_in_tuple", lambda r: ([1, 2, 3, int(r.integers(4, 99))],), )
+    add("table:column", lambda r: [[1], (2,), [int(r.integers(3, 99))]])
+    add("table:bools", lambda r: [(True, False), [True, True]])
+    add("table:nan_inf", lambda r: [[float("nan"), 1.0], (2.0, float("inf"))])
+    add("table:depth3", lambda r: [[(1, 2), [3, 4]], ([5, 6], (7, int(r.integers(8, 99))))])
+    add("table:uniform_tuples", lambda r: [(1, 2), (3, 4), (5, int(r.integers(6, 99)))])
+    add("table:uniform_lists", lambda r: [[1.5, 2], [3, 4.5]])
+    add("table:ragged_mixed", lambda r: [(1, 2), [3], (4, 5, 6)])
     add("list:deep", lambda r: [[[["deep", 1, [2.5]]]], ({"k": [(1, 2), {"z": None}]},)])
     add("tuple:ints", lambda r: (1, 2, int(r.integers(3, 99))), "h")
     add("tuple:hetero", lambda r: (1, "a", None, (2, 3)), "h")
